@@ -32,6 +32,7 @@ import (
 	"bytes"
 	"crypto/md5"
 	"fmt"
+	"math"
 	"math/big"
 	"sort"
 	"strconv"
@@ -63,6 +64,11 @@ func (p murmur3Partitioner) Name() string {
 
 func (p murmur3Partitioner) Hash(partitionKey []byte) token {
 	h1 := murmur.Murmur3H1(partitionKey)
+	if h1 == math.MinInt64 {
+		// Cassandra's Murmur3Partitioner never produces Long.MIN_VALUE,
+		// it is normalized to Long.MAX_VALUE
+		h1 = math.MaxInt64
+	}
 	return murmur3Token(h1)
 }
 
